@@ -140,3 +140,13 @@ with L_alt (a : alt) (w : list Z) : Prop :=
   | AltOne s => L_seq s w
   | AltCons s a' => L_seq s w \/ L_alt a' w
   end.
+
+(* ------------------------------------------------------------------ maximal munch *)
+(* [munch P text toks]: toks splits text into tokens, each one the LONGEST non-empty prefix of
+   the remaining text that belongs to P *)
+Inductive munch (P : list Z -> Prop) : list Z -> list (list Z) -> Prop :=
+  | munch_nil : munch P [] []
+  | munch_cons w rest toks :
+      w <> [] -> P w ->
+      (forall x y, rest = x ++ y -> x <> [] -> ~ P (w ++ x)) ->
+      munch P rest toks -> munch P (w ++ rest) (w :: toks).
